@@ -457,6 +457,14 @@ func execC15(t *testing.T, w *core.World, p *run.Plan, r *run.Result) {
 			}
 		}
 	}
+	// the same two wallets are asked for in every run of a worker process, thousands of other wallets apart: whatever
+	// the library remembers between calls must not change their addresses
+	for k, av := range []wallet.Version{wallet.V4R2, wallet.V5R1} {
+		anchor := c15id{ver: av, pub: c15key(0xA11CE, k).Public().(ed25519.PublicKey), wc: 0, sub: -1}
+		if a, err := wallet.GenerateWalletAddress(anchor.pub, anchor.ver, nil, 0, nil); err != nil || a != anchor.address() {
+			w.Violate("C15.A1", "C15.A1|address-of-a-wallet-seen-before|"+c15family(av), fmt.Sprintf("%s: GenerateWalletAddress=%s err=%v, hash of hand-built state-init=%s (the same call is made in every run of this process)", anchor, a.ToRaw(), err, anchor.address().ToRaw()))
+		}
+	}
 	// A3: one-component variants must give different addresses
 	variants := []c15id{}
 	v := id
